@@ -230,6 +230,7 @@ impl std::io::Write for ChunkSink {
 pub fn run(ctx: &mut Ctx, hostile: bool) {
     let count = if hostile { ctx.count(800, 20000) } else { ctx.count(300, 5000) };
     let mut seen_random: HashSet<Vec<u8>> = HashSet::new();
+    let mut samples: HashMap<(String, usize), Vec<Vec<u8>>> = HashMap::new(); // per (value, length): all draws of this run
     for _ in 0..count {
         let mut rng = ctx.rng.fork();
         let creds = frame::gen_creds(&mut rng);
@@ -284,7 +285,16 @@ pub fn run(ctx: &mut Ctx, hostile: bool) {
                     let mut fresh = json!({});
                     for (name, v, want_len) in vals.iter() {
                         let repeat = if *name == "inner_key" && s.inner == Inner::Plain { false } else { !seen_random.insert(v.clone()) };
-                        fresh[*name] = json!({"len": v.len(), "want_len": want_len, "all_zero": v.iter().all(|b| *b == 0) && !v.is_empty() && !(*name == "inner_key" && s.inner == Inner::Plain), "repeat": repeat, "hex": hex::encode(v)});
+                        // byte positions that never varied over >= 12 draws of this value at this length (each byte must be random)
+                        let mut constant: Vec<usize> = Vec::new();
+                        if !(*name == "inner_key" && s.inner == Inner::Plain) {
+                            let e = samples.entry((name.to_string(), v.len())).or_default();
+                            e.push(v.clone());
+                            if e.len() >= 12 {
+                                constant = (0..v.len()).filter(|i| e.iter().all(|x| x[*i] == e[0][*i])).collect();
+                            }
+                        }
+                        fresh[*name] = json!({"len": v.len(), "want_len": want_len, "all_zero": v.iter().all(|b| *b == 0) && !v.is_empty() && !(*name == "inner_key" && s.inner == Inner::Plain), "repeat": repeat, "hex": hex::encode(v), "constant_positions": constant});
                     }
                     checks["fresh"] = fresh;
                     // events, orders, key stream
@@ -343,7 +353,13 @@ pub fn run(ctx: &mut Ctx, hostile: bool) {
                         }
                     }
                     checks["leaks"] = json!(leaks);
-                    // inside the payload: protected values
+                    // inside the payload: protected values.  The search runs over the character data and attribute values of
+                    // the tokenised document (not the raw bytes: markup and escapes such as "&amp;" are not content)
+                    let texts: Vec<String> = events.iter().flat_map(|e| match e.get(0).and_then(|t| t.as_str()) {
+                        Some("c") => vec![e[1].as_str().unwrap_or("").to_string()],
+                        Some("s") => e[2].as_array().map(|a| a.iter().map(|kv| kv[1].as_str().unwrap_or("").to_string()).collect()).unwrap_or_default(),
+                        _ => vec![],
+                    }).collect();
                     let mut prot_leaks: Vec<String> = Vec::new();
                     let mut by_plain: HashMap<Vec<u8>, HashSet<String>> = HashMap::new();
                     let mut off = 0usize;
@@ -352,7 +368,7 @@ pub fn run(ctx: &mut Ctx, hostile: bool) {
                             let pt: Vec<u8> = ct.iter().zip(ks[off..off + ct.len()].iter()).map(|(a, b)| a ^ b).collect();
                             off += ct.len();
                             if pt.len() >= 4 && s.inner != Inner::Plain {
-                                if find_sub(&s.xml, &pt) && !strings_unprotected_contains(&before, &pt) {
+                                if in_text(&texts, &pt) && !strings_unprotected_contains(&before, &pt) {
                                     prot_leaks.push(format!("plaintext-in-xml:{}", String::from_utf8_lossy(&pt)));
                                 }
                                 if *t == b64enc(&pt) {
@@ -382,8 +398,7 @@ pub fn run(ctx: &mut Ctx, hostile: bool) {
                     if s.inner != Inner::Plain {
                         for pt in &db_prot {
                             if pt.len() >= 4 && !strings_unprotected_contains(&before, pt) {
-                                let esc = String::from_utf8_lossy(pt).replace('&', "&amp;").replace('<', "&lt;").replace('>', "&gt;");
-                                if find_sub(&s.xml, pt) || find_sub(&s.xml, esc.as_bytes()) {
+                                if in_text(&texts, pt) {
                                     prot_leaks.push(format!("database-protected-value-in-clear:{}", String::from_utf8_lossy(pt)));
                                 }
                             }
@@ -424,6 +439,10 @@ pub fn run(ctx: &mut Ctx, hostile: bool) {
 }
 
 /// does the plaintext also occur as an *unprotected* string of the database (then finding it in the XML proves nothing)?
+fn in_text(texts: &[String], pt: &[u8]) -> bool {
+    texts.iter().any(|t| find_sub(t.as_bytes(), pt))
+}
+
 fn strings_unprotected_contains(db: &J, pt: &[u8]) -> bool {
     fn walk(j: &J, pt: &[u8], found: &mut bool) {
         match j {
